@@ -201,19 +201,23 @@ def sumSh (k : Stk) : List AccKey → Int
   | [] => 0
   | x :: r => shOf k x + sumSh k r
 
-/-- every delegation holds a non-negative number of shares, and the delegations of DISTINCT intermediary accounts of
-one validator together hold at most the validator's `DelegatorShares` (the rest belongs to other delegators). -/
-def ShareInv (k : Stk) : Prop :=
-  (∀ key, 0 ≤ shOf k key) ∧
-  ∀ (v : Nat) (L : List AccKey), L.Nodup → (∀ x, x ∈ L → x.2 = v) → sumSh k L ≤ (k.val v).shares
+/-- for validator `v`: every delegation of an account of `v` holds a non-negative number of shares, and the delegations
+of DISTINCT intermediary accounts of `v` together hold at most `v`'s `DelegatorShares` (the rest belongs to other
+delegators). -/
+def ShareInvV (k : Stk) (v : Nat) : Prop :=
+  (∀ key : AccKey, key.2 = v → 0 ≤ shOf k key) ∧
+  ∀ (L : List AccKey), L.Nodup → (∀ x, x ∈ L → x.2 = v) → sumSh k L ≤ (k.val v).shares
 
-theorem ShareInv.le {k : Stk} (h : ShareInv k) (key : AccKey) : shOf k key ≤ (k.val key.2).shares := by
-  have := h.2 key.2 [key] (by simp) (by intro x hx; simp only [List.mem_singleton] at hx; rw [hx])
+/-- … for every validator. -/
+def ShareInv (k : Stk) : Prop := ∀ v, ShareInvV k v
+
+theorem ShareInvV.le {k : Stk} {key : AccKey} (h : ShareInvV k key.2) : shOf k key ≤ (k.val key.2).shares := by
+  have := h.2 [key] (by simp) (by intro x hx; simp only [List.mem_singleton] at hx; rw [hx])
   simpa [sumSh] using this
 
-theorem ShareInv.le2 {k : Stk} (h : ShareInv k) {k1 k2 : AccKey} (hne : k1 ≠ k2) (hv : k1.2 = k2.2) :
+theorem ShareInvV.le2 {k : Stk} {k1 k2 : AccKey} (h : ShareInvV k k2.2) (hne : k1 ≠ k2) (hv : k1.2 = k2.2) :
     shOf k k1 + shOf k k2 ≤ (k.val k2.2).shares := by
-  have := h.2 k2.2 [k1, k2] (by simp [hne]) (by
+  have := h.2 [k1, k2] (by simp [hne]) (by
     intro x hx
     simp only [List.mem_cons, List.not_mem_nil, or_false] at hx
     rcases hx with hx | hx
@@ -254,65 +258,79 @@ theorem shOf_ite {k : Stk} {key : AccKey} {x : Int} (h : k.dsh key = (if x = 0 t
   unfold shOf; rw [h]
   split <;> simp_all
 
-theorem shOf_frame {k k' : Stk} (h : ∀ x : AccKey, x ≠ key → k'.dsh x = k.dsh x) : ∀ x, x ≠ key → shOf k' x = shOf k x := by
+theorem shOf_frame {k k' : Stk} {key : AccKey} (h : ∀ x : AccKey, x ≠ key → k'.dsh x = k.dsh x) :
+    ∀ x, x ≠ key → shOf k' x = shOf k x := by
   intro x hx; unfold shOf; rw [h x hx]
 
-/-- the share invariant is preserved by one change of an account's shares and its validator's shares by the same `δ`
-(`δ ≥ −` the account's shares). -/
-theorem ShareInv.step {k k' : Stk} {key : AccKey} {δ : Int} (h : ShareInv k)
+/-- a change at ANOTHER validator leaves `v`'s invariant alone. -/
+theorem ShareInvV.frame {k k' : Stk} {key : AccKey} {v : Nat} (h : ShareInvV k v) (hv : key.2 ≠ v)
+    (hoth : ∀ x, x ≠ key → shOf k' x = shOf k x) (hvoth : ∀ j, j ≠ key.2 → k'.val j = k.val j) : ShareInvV k' v := by
+  have hk : ∀ x : AccKey, x.2 = v → shOf k' x = shOf k x := by
+    intro x hx; apply hoth; intro hc; rw [hc] at hx; exact hv hx
+  constructor
+  · intro x hx; rw [hk x hx]; exact h.1 x hx
+  · intro L hnd hL
+    rw [sumSh_congr L (fun x hx => hk x (hL x hx)), hvoth v (fun hc => hv hc.symm)]
+    exact h.2 L hnd hL
+
+/-- the invariant of the account's own validator is preserved by one change of the account's shares and the validator's
+shares by the same `δ` (`δ ≥ −` the account's shares). -/
+theorem ShareInvV.step {k k' : Stk} {key : AccKey} {δ : Int} (h : ShareInvV k key.2)
     (hkey : shOf k' key = shOf k key + δ) (hδ : 0 ≤ shOf k key + δ)
     (hoth : ∀ x, x ≠ key → shOf k' x = shOf k x)
-    (hval : (k'.val key.2).shares = (k.val key.2).shares + δ) (hvoth : ∀ j, j ≠ key.2 → k'.val j = k.val j) :
-    ShareInv k' := by
+    (hval : (k'.val key.2).shares = (k.val key.2).shares + δ) :
+    ShareInvV k' key.2 := by
   constructor
-  · intro x
+  · intro x hxv
     by_cases hx : x = key
     · subst hx; rw [hkey]; exact hδ
-    · rw [hoth x hx]; exact h.1 x
-  · intro v L hnd hL
-    rw [sumSh_update hkey hoth L hnd]
-    by_cases hv : v = key.2
-    · subst hv
-      rw [hval]
-      by_cases hm : key ∈ L
-      · rw [if_pos hm]; have := h.2 key.2 L hnd hL; omega
-      · rw [if_neg hm]
-        by_cases hδ0 : 0 ≤ δ
-        · have := h.2 key.2 L hnd hL; omega
-        · -- a removal: count the account in
-          have := h.2 key.2 (key :: L) (List.nodup_cons.mpr ⟨hm, hnd⟩) (by
-            intro x hx
-            rcases List.mem_cons.mp hx with hx | hx
-            · rw [hx]
-            · exact hL x hx)
-          unfold sumSh at this
-          omega
-    · rw [hvoth v hv]
-      have hm : key ∉ L := by
-        intro hc; exact hv (hL key hc).symm
-      rw [if_neg hm]
-      have := h.2 v L hnd hL; omega
+    · rw [hoth x hx]; exact h.1 x hxv
+  · intro L hnd hL
+    rw [sumSh_update hkey hoth L hnd, hval]
+    by_cases hm : key ∈ L
+    · rw [if_pos hm]; have := h.2 L hnd hL; omega
+    · rw [if_neg hm]
+      by_cases hδ0 : 0 ≤ δ
+      · have := h.2 L hnd hL; omega
+      · -- a removal: count the account in
+        have := h.2 (key :: L) (List.nodup_cons.mpr ⟨hm, hnd⟩) (by
+          intro x hx
+          rcases List.mem_cons.mp hx with hx | hx
+          · rw [hx]
+          · exact hL x hx)
+        unfold sumSh at this
+        omega
 
-theorem shareInv_mintS {s s' : SState} {a : Int} {key : AccKey} (hI : ShareInv s.k)
-    (hT : 0 < (s.k.val key.2).tokens) (hS : 0 < (s.k.val key.2).shares) (h : mintS s a key = .ok s') : ShareInv s'.k := by
-  obtain ⟨i, _, _, hi, _, hv, hd, _⟩ := mintS_effect hT hS h
+theorem shareInvV_mintS {s s' : SState} {a : Int} {key : AccKey} {v : Nat} (hI : ShareInvV s.k v)
+    (hH : key.2 = v → 0 < (s.k.val key.2).tokens ∧ 0 < (s.k.val key.2).shares) (h : mintS s a key = .ok s') :
+    ShareInvV s'.k v := by
   obtain ⟨f1, f2⟩ := mintS_frame h
-  refine hI.step (δ := i) (key := key) (by rw [shOf_of_some hd]) (by have := hI.1 key; omega) (shOf_frame f1) (by rw [hv]) f2
+  by_cases hv : key.2 = v
+  · obtain ⟨hT, hS⟩ := hH hv
+    subst hv
+    obtain ⟨i, _, _, hi, _, hv', hd, _⟩ := mintS_effect hT hS h
+    exact hI.step (δ := i) (by rw [shOf_of_some hd]) (by have := hI.1 key rfl; omega) (shOf_frame f1) (by rw [hv'])
+  · exact hI.frame hv (shOf_frame f1) f2
 
-theorem shareInv_burnS {s s' : SState} {a : Int} {key : AccKey} (hI : ShareInv s.k)
-    (hT : 0 < (s.k.val key.2).tokens) (hS : 0 < (s.k.val key.2).shares) (h : burnS s a key = .ok s') : ShareInv s'.k := by
-  cases hd : s.k.dsh key with
-  | none =>
-    rcases (burnS_ok h).2 with ⟨_, hs'⟩ | ⟨d0, _, _, _, _, hd0, _⟩
-    · subst hs'; exact hI
-    · rw [hd] at hd0; cases hd0
-  | some d =>
-    obtain ⟨sh, got, _, _, h0, hle, _, hdd, _, hv⟩ := burnS_effect hT hS hd h
-    obtain ⟨f1, f2⟩ := burnS_frame h
-    have e1 : shOf s.k key = d := shOf_of_some hd
-    refine hI.step (δ := -sh) (key := key) (by rw [shOf_ite hdd, e1]; omega) (by rw [e1]; omega) (shOf_frame f1) ?_ f2
-    rcases hv with ⟨r1, r2, _⟩ | ⟨_, r2, _⟩
-    · rw [r2]; show (0 : Int) = _; omega
-    · rw [r2]; show _ - sh = _; omega
+theorem shareInvV_burnS {s s' : SState} {a : Int} {key : AccKey} {v : Nat} (hI : ShareInvV s.k v)
+    (hH : key.2 = v → 0 < (s.k.val key.2).tokens ∧ 0 < (s.k.val key.2).shares) (h : burnS s a key = .ok s') :
+    ShareInvV s'.k v := by
+  obtain ⟨f1, f2⟩ := burnS_frame h
+  by_cases hv : key.2 = v
+  · obtain ⟨hT, hS⟩ := hH hv
+    subst hv
+    cases hd : s.k.dsh key with
+    | none =>
+      rcases (burnS_ok h).2 with ⟨_, hs'⟩ | ⟨d0, _, _, _, _, hd0, _⟩
+      · subst hs'; exact hI
+      · rw [hd] at hd0; cases hd0
+    | some d =>
+      obtain ⟨sh, got, _, _, h0, hle, _, hdd, _, hvv⟩ := burnS_effect hT hS hd h
+      have e1 : shOf s.k key = d := shOf_of_some hd
+      refine hI.step (δ := -sh) (by rw [shOf_ite hdd, e1]; omega) (by rw [e1]; omega) (shOf_frame f1) ?_
+      rcases hvv with ⟨r1, r2, _⟩ | ⟨_, r2, _⟩
+      · rw [r2]; show (0 : Int) = _; omega
+      · rw [r2]; show _ - sh = _; omega
+  · exact hI.frame hv (shOf_frame f1) f2
 
 end OsmoVerif.Superfluid
